@@ -48,3 +48,10 @@ package aead
 //@   modifies pointee(s)
 //@   ensures [C02] only_what_opens: result == nil ==> b64ok(base64.RawURLEncoding, value) && called(@Decrypt#1) && @Decrypt#1.1 == nil && arg(@Decrypt#1, 1) == b64dec(base64.RawURLEncoding, value) && called(@Unmarshal#1) && @Unmarshal#1 == nil && arg(@Unmarshal#1, 0) == gunzipOf(@Decrypt#1.0) && arg(@Unmarshal#1, 1) == s
 //@   ensures [C02] only_unmodified: result == nil ==> value == b64enc(base64.RawURLEncoding, b64dec(base64.RawURLEncoding, value))
+
+// The whole secret is the key: two different secrets give two different AEAD objects.
+//@ func NewMiscreantCipher(secret []byte) (*MiscreantCipher, error)
+//@   modifies nothing
+//@   fresh result.0
+//@   ensures [C02] whole_secret_is_the_key: result.1 == nil ==> result.0 != nil && called(@NewAEAD#1) && @NewAEAD#1.1 == nil && arg(@NewAEAD#1, 1) == secret && arg(@NewAEAD#1, 2) == 16 && result.0.aead == @NewAEAD#1.0 && nonceSize(result.0.aead.pay) == 16
+//@   ensures [C02] error_yields_no_cipher: result.1 != nil ==> result.0 == nil
